@@ -3,26 +3,26 @@
 import json
 
 CHECKS = {
- "C03": ("model_checking", "contract model checking (TLC, all histories to fixpoint) + replay of every reachable state x call into the real code, each observed step judged by TLC (TraceProps) against HSProps clauses and Apply",
+ "C03": ("model_checking", "contract model checking (TLC, all histories to fixpoint) + replay of every reachable state x call into the real code, each observed step judged by TLC (TraceProps) against HSProps clauses and Apply; repeated with case-variant and file-path pids; C03 clauses also judged on every concurrent outcome explored for C07 (TraceLin I_C03_Conc) and on every fault record (TraceFault I_C03_Fault)",
          "§5 C03"),
- "C04": ("model_checking", "same engine as C03; clauses C04_ReferencedKept / C04_LastDeleteRemoves", "§5 C04"),
- "C05": ("model_checking", "same engine as C03; clauses C05_RefsExact / C05_NoResidue / C05_DeleteAlwaysCleans against the history ghost", "§5 C05"),
- "C11": ("model_checking", "contract model checking over metadata alphabets + replay of every state x call; clauses C11_DocsExact / C11_Retrieve / C11_Isolation", "§5 C11"),
+ "C04": ("model_checking", "same engine as C03; clauses C04_ReferencedKept / C04_LastDeleteRemoves; plus C04_ConcReferencedKept on every concurrent outcome and C04_FaultReferencedKept on every fault record", "§5 C04"),
+ "C05": ("model_checking", "same engine as C03; clauses C05_RefsExact / C05_NoResidue / C05_DeleteAlwaysCleans against the history ghost; plus C05_ConcRefsExact on every concurrent outcome", "§5 C05"),
+ "C11": ("model_checking", "contract model checking over metadata alphabets + replay of every state x call; clauses C11_DocsExact / C11_Retrieve / C11_Isolation; plus C11_Conc* on every concurrent outcome explored for C12 and C11_Fault* on every fault record", "§5 C11"),
  "C17": ("model_checking", "every reachable contract state x invalid-argument template and read-only call, byte-for-byte tree comparison, judged by TLC clause C17_*", "§5 C17"),
- "C07": ("model_checking", "every interleaving (2 threads, state-cached exhaustive DFS under a cooperative scheduler at file-system-call and lock-operation granularity) of each related call pair from 5 start states on the REAL code; each distinct terminal outcome judged by TLC (TraceLin): some permutation of the calls through the contract Apply must reproduce results and final state", "§5 C07"),
+ "C07": ("model_checking", "every interleaving (2 threads, state-cached exhaustive DFS under a cooperative scheduler at file-system-call and lock-operation granularity) of each related call pair from 5 start states on the REAL code; each distinct terminal outcome judged by TLC (TraceLin): some permutation of the calls through the contract Apply must reproduce results and final state; 3-thread scenarios preemption-bounded on the code and exhaustive on the implementation-shaped PlusCal model (impl/MCImpl), recorded executions validated step by step (impl/TraceSteps)", "§5 C07"),
  "C08": ("model_checking", "deadlock detection (no runnable thread while a call is unfinished), lock lists empty at quiescence and follow-up calls on every involved identifier must complete, over every execution explored for C07 and C12; judged by TLC (TraceLin I_NoDeadlock / I_NothingLocked)", "§5 C08"),
  "C12": ("model_checking", "every interleaving of metadata call pairs on one pid (store/retrieve/delete(format)/delete(all)/delete_object) on the real code; outcomes judged linearizable against Apply by TLC (TraceLin)", "§5 C12"),
  "C09": ("model_checking", "C09 clauses evaluated by TLC on (a) every distinct abstract store state seen between two file-system operations in every interleaving explored for C07/C12 (what a concurrent reader can see), (b) the directory left by process death before each file-system operation of each call, (c) the state after each injected fault", "§5 C09"),
  "C10": ("fault_enumeration", "process death (fork + os._exit) before each intercepted file-system operation of each call x start state on the real code; post-crash abstraction, reopen with a fresh instance and recovery script; clauses C10_OthersIntact / C10_NoWrongBytes / C10_Unwedge judged by TLC (TraceFault)", "§5 C10"),
- "C13": ("fault_enumeration", "one injected OSError at each mutating/opening file-system operation of each call x start state x {once, persistent-for-destination} on the real code; clauses C13_* judged by TLC (TraceFault) with the contract Apply as the meaning of 'whole effect'", "§5 C13"),
- "C01": ("model_checking", "contract clauses C01_* over all histories (TLC) + replay of every reachable state x call and TLC-simulated long histories into the real code judged by TraceProps; plus the product sizes (around both read-buffer sizes) x 8 kinds of data argument x 5 store algorithms judged by TLC (TraceTables I_C01_Sweep)", "§5 C01"),
+ "C13": ("fault_enumeration", "one injected OSError at each mutating/opening file-system operation of each call x start state x {once, persistent-for-destination} on the real code; clauses C13_* judged by TLC (TraceFault) with the contract Apply as the meaning of 'whole effect'; TagTxn.tla / DeleteTxn.tla (tagging and deleting as transactions under one failure) model-checked and compared with the code per fault site", "§5 C13"),
+ "C01": ("model_checking", "contract clauses C01_* over all histories (TLC) + replay of every reachable state x call and TLC-simulated long histories into the real code judged by TraceProps; plus the product sizes (around both read-buffer sizes) x 8 kinds of data argument x 5 store algorithms judged by TLC (TraceTables I_C01_Sweep); identifier passes (case variants, file-path pids); C01 clauses on concurrent outcomes (incl. readers racing calls on other pids) and fault records", "§5 C01"),
  "C02": ("model_checking", "Algorithms.tla (independent transcription of the spelling rule, Keys(call)) checked by TLC; TLC enumerates every spelling of the 12 algorithms + unsupported names; the harness drives ONE store instance through a long history of store_object / get_hex_digest calls over that product and TLC judges every record (TraceTables I_C02_*, coverage clause)", "§5 C02"),
- "C06": ("model_checking", "contract clauses C06_* over all histories + replay (good / wrong checksum / wrong size) and the product 3 prior states x 12 algorithms x spellings x {lower, upper, mixed, wrong} checksum x {correct, wrong, absent} size x {store_object, delete_if_invalid_object} on the real code, judged by TLC against VerdictValid as the property states it", "§5 C06"),
+ "C06": ("model_checking", "contract clauses C06_* over all histories + replay (good / wrong checksum / wrong size) and the product 3 prior states x 12 algorithms x spellings x {lower, upper, mixed, wrong} checksum x {correct, wrong, absent} size x {store_object, delete_if_invalid_object} on the real code, judged by TLC against VerdictValid as the property states it (also with an additional algorithm named in the call); C06_ConcVerdictKeepsReferenced on every concurrent outcome", "§5 C06"),
  "C14": ("model_checking", "Config.tla decision table; TLC explores all 5e6 (creation, reopening) pairs for its own invariants; the harness replays neighbours (quick) / all 200 creations x ~500 attempts (thorough) on real empty and populated stores and TLC judges decision, byte-for-byte refusal and data visibility (TraceConfig)", "§5 C14"),
  "C15": ("model_checking", "Layout.tla (independent implementation of the README layout); every file found in real stores of all 120 (depth, width, algorithm) configurations after a fixed script is checked by TLC for location and content; several configurations per process with the same identifiers", "§5 C15"),
  "C16": ("model_checking", "USE_MULTIPROCESSING=True: the sequential contract walk, the C07/C12 interleaving scenarios and the fault enumeration re-run through the `_mp` branches (stand-in primitives, threads play processes), judged by the same TLC trace specs; plus real forked processes with real Manager lists/locks (sampling) judged for linearizability by TraceLin", "§5 C16"),
  "C18": ("model_checking", "TLC-simulated call histories replayed under adversarial injective instantiations of pids/formats with whole-file-system interposition; every step judged by TLC (all sequential clauses + C18_Bystander + C18_Contained): the code must behave like the model in which identifiers are uninterpreted", "§5 C18"),
- "C19": ("model_checking", "Converge(one, two) is an invariant of the contract over all reachable states (TLC); both procedures run on copies of the real store from every reachable state x pid x content x validation case, compared by TLC (TraceConverge)", "§5 C19"),
+ "C19": ("model_checking", "Converge(one, two) is an invariant of the contract over all reachable states (TLC); both procedures run on copies of the real store from every reachable state x pid x content x validation case, compared by TLC (TraceConverge); C19_ConcReferencedUndisturbed on every concurrent outcome explored for C07", "§5 C19"),
  "C20": ("model_checking", "Client.tla enumerates every verb x option-value-class combination and the typed API call it stands for (TLC); the harness runs hashstoreclient.main() and that API call on copies of one populated store; TLC compares effect (byte-for-byte tree), refusal and printed payload (TraceClient)", "§5 C20"),
 }
 NOT_YET = {}
